@@ -7,3 +7,4 @@ package l4postgres
 //@ func (m *MatchPostgres) Match(cx *layer4.Connection) (matched bool, err error)
 //@ requires wfm(cx)
 //@ safety C04
+//@ implements[C06] (m github.com/mholt/caddy-l4/layer4.ConnMatcher) Match
